@@ -150,6 +150,7 @@ type jsonFeats struct {
 	nullablePrim bool
 	addl         bool
 	allOf        bool
+	tailAddl     bool // reff only: allOf whose last member is a reference to an object with additionalProperties
 	oneOf        bool
 	inlineObj    bool
 	anyType      bool
@@ -196,7 +197,14 @@ func genObj(rng *PRNG, objRefs, arrRefs []string, depth int, feats jsonFeats) *J
 	if feats.addl && rng.Chance(1, 5) {
 		o.AddlFalse = true
 	} else if feats.addl && rng.Chance(1, 3) {
-		switch rng.Intn(3) {
+		switch rng.Intn(4) {
+		case 3:
+			if feats.inlineObj && depth < 2 {
+				// an inline object as the additional-property schema (hoisted as <Parent>AdditionalProperties)
+				o.Addl = genObj(rng, nil, nil, 2, jsonFeats{})
+			} else {
+				o.Addl = &JS{Kind: "int"}
+			}
 		case 0:
 			o.Addl = &JS{Kind: "any"}
 		case 1:
@@ -260,6 +268,10 @@ func genJSONEnv(rng *PRNG, feats jsonFeats) *jsonEnv {
 				inline.Props[k].Name = "m" + fmt.Sprint(i) + "_" + inline.Props[k].Name
 			}
 			sort.Slice(inline.Props, func(a, b int) bool { return inline.Props[a].Name < inline.Props[b].Name })
+			if feats.addl && rng.Chance(1, 3) {
+				// an inline member's additionalProperties become the composite's
+				inline.Addl = &JS{Kind: Pick(rng, []string{"str", "int", "any"})}
+			}
 			ref := &JS{Kind: "ref", Ref: Pick(rng, objNames)}
 			var members []*JS
 			switch rng.Intn(4) {
@@ -300,6 +312,18 @@ func genJSONEnv(rng *PRNG, feats jsonFeats) *jsonEnv {
 			}
 			env.comps[fmt.Sprintf("Merged%c", 'A'+i)] = &JS{Kind: "allOf", Members: members}
 		}
+	}
+	if feats.tailAddl && len(plainObjs) > 0 {
+		// a member by reference that declares additionalProperties, in LAST position: the earlier
+		// members consume their keys first, so nothing is swallowed (not the KF-C06-embeddedAddl class)
+		tail := genObj(rng, nil, nil, 2, jsonFeats{})
+		for k := range tail.Props {
+			tail.Props[k].Name = "t_" + tail.Props[k].Name
+		}
+		sort.Slice(tail.Props, func(a, b int) bool { return tail.Props[a].Name < tail.Props[b].Name })
+		tail.Addl = &JS{Kind: Pick(rng, []string{"str", "int", "any"})}
+		env.comps["Tail"] = tail
+		env.comps["Stack"] = &JS{Kind: "allOf", Members: []*JS{{Kind: "ref", Ref: Pick(rng, plainObjs)}, {Kind: "ref", Ref: "Tail"}}}
 	}
 	if feats.oneOf {
 		// variants are objects carrying a required string discriminator property "kind"
@@ -552,9 +576,19 @@ func (e *jsonEnv) genVal(rng *PRNG, s *JS, depth int) rt.Val {
 			if m.Kind == "ref" {
 				v.F = append(v.F, e.genVal(rng, m, depth+1))
 			} else {
-				inner := e.genObjVal(rng, m, depth)
+				plain := *m
+				plain.Addl = nil
+				inner := e.genObjVal(rng, &plain, depth)
 				v.F = append(v.F, inner.F...)
 			}
+		}
+		if a := allOfAddl(s); a != nil {
+			declared := &JS{Kind: "obj", Addl: a}
+			for _, m := range s.Members {
+				declared.Props = append(declared.Props, e.resolve(m).Props...)
+			}
+			probe := e.genObjVal(rng, declared, depth)
+			v.X = probe.X
 		}
 		return v
 	case "oneOf":
@@ -666,14 +700,16 @@ func (e *jsonEnv) genDoc(rng *PRNG, s *JS, depth int) any {
 	case "obj":
 		return e.genObjDoc(rng, s, depth)
 	case "allOf":
-		out := map[string]any{}
-		for _, m := range s.Members {
-			mm := e.genDoc(rng, m, depth+1).(map[string]any)
-			for k, v := range mm {
-				out[k] = v
-			}
+		// declared properties member by member, then extra keys against the composite's
+		// additionalProperties (those of its last inline member that declares them)
+		merged := &JS{Kind: "obj", Addl: allOfAddl(s)}
+		if last := e.resolve(s.Members[len(s.Members)-1]); merged.Addl == nil && last.Addl != nil {
+			merged.Addl = last.Addl // reff: a trailing member by reference with additionalProperties
 		}
-		return out
+		for _, m := range s.Members {
+			merged.Props = append(merged.Props, e.resolve(m).Props...)
+		}
+		return e.genObjDoc(rng, merged, depth)
 	case "oneOf":
 		i := rng.Intn(len(s.Members))
 		d := e.genDoc(rng, s.Members[i], depth+1)
@@ -916,6 +952,17 @@ func facetJSON(args []string) error {
 	return rerr
 }
 
+
+// allOfAddl: the additionalProperties schema of the last inline member that declares one.
+func allOfAddl(s *JS) *JS {
+	var a *JS
+	for _, m := range s.Members {
+		if m.Kind != "ref" && m.Addl != nil {
+			a = m.Addl
+		}
+	}
+	return a
+}
 
 // kfJSONEnv: fixed witness of KF-C06-embeddedAddl (an allOf member given by reference whose
 // schema declares additionalProperties swallows the keys of the members after it).
